@@ -143,6 +143,14 @@ func g14ReservedProvenance(c *Ctx) {
 	n := 0
 	ast.Inspect(fi.Decl.Body, func(m ast.Node) bool {
 		switch x := m.(type) {
+		case *ast.ExprStmt:
+			// maps.Copy(reserved, X): every key of X is added
+			if c, ok := x.X.(*ast.CallExpr); ok && isPkgFunc(callee(info, c), "maps", "Copy") && len(c.Args) == 2 {
+				if id, ok := ast.Unparen(c.Args[0]).(*ast.Ident); ok && info.Uses[id] == resVar {
+					n++
+					classify(x, []ast.Expr{c.Args[1]})
+				}
+			}
 		case *ast.AssignStmt:
 			for i, l := range x.Lhs {
 				if ix, ok := l.(*ast.IndexExpr); ok {
@@ -609,6 +617,12 @@ func g14ReservedBeforeNaming(c *Ctx) {
 				case *ast.CallExpr:
 					if fn, ok := callee(info, x).(*types.Func); ok && funcKey(fn) == "derive.(*pkg).Add" {
 						adds = append(adds, x)
+					}
+					// maps.Copy(reserved, X) stores every key of X
+					if isPkgFunc(callee(info, x), "maps", "Copy") && len(x.Args) == 2 {
+						if id, ok := ast.Unparen(x.Args[0]).(*ast.Ident); ok && info.Uses[id] == resVar {
+							stores = append(stores, x)
+						}
 					}
 				}
 				return true
